@@ -263,7 +263,9 @@ class PhySettings(Settings):
 class GeomSettings(Settings):
     def __init__(self, bankbits, rowbits, colbits):
         self.set_attributes(locals())
-        self.addressbits = max(rowbits, colbits)
+        # A10 is reserved for auto-precharge and skipped by column addresses: columns wider than
+        # 10 bits occupy one more address line.
+        self.addressbits = max(rowbits, colbits + 1 if colbits > 10 else colbits)
 
 
 class TimingSettings(Settings):
